@@ -39,7 +39,8 @@ ASSUMPTIONS = ['faults are injected into filesystem calls made until the applica
 # the per-call counters (fault:open, fault:getmtime, ...) are reported in the evidence
 REQUIRED_REACH = ['served-and-compared', 'canonical-file-served', 'escape:dotdot-refused', 'escape:absolute-refused',
                   'escape:secret-path-pieces-refused', 'noncanonical-contained', 'fault-injected', 'fault-on-every-call-about-one-file', 'clean-request-after-fault', 'clean-request-after-fault:name-in-two-search-paths', 'fallthrough-to-second-app', '304-observed', 'first-search-path-wins',
-                  'audit-opens-seen', 'mode:redirect', 'mode:rewrite', 'mode:strict']
+                  'audit-opens-seen', 'root-spelled:trailing-slash', 'root-spelled:dot-segment', 'root-spelled:dotdot-detour', 'root-spelled:double-slash',
+                  'root-spelled:relative', 'names-that-normalisation-would-rewrite', 'mode:redirect', 'mode:rewrite', 'mode:strict']
 NSHARDS = 16
 ERRNOS = [errno.ENOENT, errno.EACCES, errno.EIO, errno.EISDIR]
 
@@ -102,9 +103,14 @@ class Tree(object):
         for rel, kind in [('a.txt', 'text'), ('b.bin', 'binary'), ('empty', 'empty'), ('sub/c.html', 'text'),
                           ('sub/deep/d.txt', 'text'), ('sp ace.txt', 'text'), ('é.txt', 'text'), ('.hidden', 'text'),
                           ('..data', 'text'), ('noext', 'binary'), ('sub/x.y.z', 'text'), ('both.txt', 'text'), ('crlf.txt', 'crlf'),
-                          ('sub/page.html', 'crlf'), ('style.css', 'crlf')]:
+                          ('sub/page.html', 'crlf'), ('style.css', 'crlf'),
+                          # names that Unicode normalisation would rewrite, next to their composed namesakes (other bytes)
+                          ('re\u0301sume\u0301.txt', 'text'), ('r\u00e9sum\u00e9.txt', 'text'), ('units/10\u212b.dat', 'binary'),
+                          ('units/10\u00c5.dat', 'binary'), ('u\u0308bersicht/menu\u0308.html', 'text'), ('cafe\u0301.txt', 'text'),
+                          ('5\u2126.dat', 'text')]:
             put(os.path.join(self.root1, rel), kind)
-        for rel, kind in [('both.txt', 'text'), ('only2.txt', 'text'), ('sub/c.html', 'text'), ('sub/only2.css', 'text')]:
+        for rel, kind in [('both.txt', 'text'), ('only2.txt', 'text'), ('sub/c.html', 'text'), ('sub/only2.css', 'text'),
+                          ('caf\u00e9.txt', 'text'), ('5\u03a9.dat', 'text')]:
             put(os.path.join(self.root2, rel), kind)
         os.makedirs(os.path.join(self.root1, 'emptydir'), exist_ok=True)
         self.secret_paths = [p for p in self.files if not p.startswith(self.root1 + os.sep) and not p.startswith(self.root2 + os.sep)]
@@ -146,20 +152,45 @@ def classify(segs, served, root_mounted=False):
     return 'contained', norm
 
 
+def spell(root, how):
+    """the same directory, written the way configuration files write it"""
+    if how == 'trailing-slash':
+        return root + '/'
+    if how == 'double-slash':
+        head, tail = os.path.split(root)
+        return head + '//' + tail
+    if how == 'dot-segment':
+        head, tail = os.path.split(root)
+        return head + '/./' + tail + '/.'
+    if how == 'dotdot-detour':
+        head, tail = os.path.split(root)
+        return os.path.join(head, tail, '..', tail)
+    if how == 'relative':
+        return os.path.relpath(root)
+    return root
+
+
 class Config(object):
-    def __init__(self, tree, roots, prefix, mode, two_apps=False):
+    def __init__(self, tree, roots, prefix, mode, two_apps=False, spelling='plain'):
         from clastic import Application, StaticApplication
         self.tree, self.roots, self.prefix, self.mode, self.two_apps = tree, roots, prefix, mode, two_apps
+        self.spelling, self.light = spelling, spelling != 'plain'
+        given = [spell(r, spelling) for r in roots]
         if two_apps:
-            entries = [(prefix, StaticApplication(roots[0])), (prefix, StaticApplication(roots[1]))]
+            entries = [(prefix, StaticApplication(given[0])), (prefix, StaticApplication(given[1]))]
         else:
-            entries = [(prefix, StaticApplication(list(roots) if len(roots) > 1 else roots[0]))]
+            entries = [(prefix, StaticApplication(list(given) if len(given) > 1 else given[0]))]
         self.app = Application(entries, slash_mode=mode)
         self.served = rel_files(tree, roots)
-        self.label = '%d-root%s %s %s' % (len(roots), '-2apps' if two_apps else '', prefix, mode)
+        self.label = '%d-root%s %s %s%s' % (len(roots), '-2apps' if two_apps else '', prefix, mode,
+                                            '' if spelling == 'plain' else ' root-spelled:' + spelling)
 
     def raw_path(self, segs):
         return self.prefix.rstrip('/') + '/' + '/'.join(segs)
+
+    def desc(self):
+        return {'roots': len(self.roots), 'root_order': [1 if r == self.tree.root1 else 2 for r in self.roots], 'two_apps': self.two_apps,
+                'prefix': self.prefix, 'mode': self.mode, 'spelling': self.spelling}
 
 
 def serve(cfg, segs, headers=None, method='GET', faults=None):
@@ -191,10 +222,12 @@ def judge(sh, cfg, segs, record=None, faulted=False):
     kind, target = classify(segs, cfg.served, cfg.prefix.rstrip('/') == '')
     case = {'cfg': cfg.label, 'segs': segs}
     sh.hit('mode:' + cfg.mode)
+    if cfg.spelling != 'plain':
+        sh.hit('root-spelled:' + cfg.spelling)
 
     def bad(key, what):
         sh.violation('C14/' + key, '[%s] GET %r -> %s' % (cfg.label, cfg.raw_path(segs), what),
-                     {'roots': len(cfg.roots), 'two_apps': cfg.two_apps, 'prefix': cfg.prefix, 'mode': cfg.mode, 'segs': segs})
+                     dict(cfg.desc(), segs=segs))
 
     if opens:
         sh.hit('audit-opens-seen')
@@ -264,6 +297,9 @@ def judge(sh, cfg, segs, record=None, faulted=False):
 # ---- conditional requests -------------------------------------------------------------------------------------------
 def judge_conditional(sh, cfg, segs):
     ex, kind = judge(sh, cfg, segs)
+    import unicodedata
+    if any(unicodedata.normalize(f, x) != x for x in segs for f in ('NFC', 'NFKC')) and ex.status == 200:
+        sh.hit('names-that-normalisation-would-rewrite')
     if ex.status != 200 or ex.exc is not None:
         return
     lm = ex.header('Last-Modified')
@@ -271,8 +307,7 @@ def judge_conditional(sh, cfg, segs):
     for label, delta, want in (('at', 0, 304), ('after', 3600, 304), ('before', -3600, 200)):
         hdr = format_datetime(when + datetime.timedelta(seconds=delta), usegmt=True)
         ex2, _ = serve(cfg, segs, headers={'If-Modified-Since': hdr})
-        case = {'roots': len(cfg.roots), 'two_apps': cfg.two_apps, 'prefix': cfg.prefix, 'mode': cfg.mode, 'segs': segs,
-                'ims': label}
+        case = dict(cfg.desc(), segs=segs, ims=label)
         if ex2.exc is not None or ex2.status != want:
             sh.violation('C14/conditional-request', '[%s] GET %r If-Modified-Since %s the served time -> %s (expected %s)'
                          % (cfg.label, cfg.raw_path(segs), label, ex2.status if ex2.exc is None else probe.safe_repr(ex2.exc), want), case)
@@ -424,8 +459,7 @@ def judge_faults(sh, cfg, segs, faults, headers=None):
             sh.hit('fault:' + faults.fired)
             if k == 'path':
                 sh.hit('fault-on-every-call-about-one-file')
-            case = {'roots': len(cfg.roots), 'two_apps': cfg.two_apps, 'prefix': cfg.prefix, 'mode': cfg.mode, 'segs': segs,
-                    'fault': [k, en], 'headers': headers}
+            case = dict(cfg.desc(), segs=segs, fault=[k, en], headers=headers)
             what = '[%s] GET %r with %s failing (%s) at filesystem call %s of %r' % (
                 cfg.label, cfg.raw_path(segs), faults.fired, errno.errorcode[en],
                 k if k != 'path' else 'about ' + os.path.relpath(point[2], cfg.tree.base), sites)
@@ -479,6 +513,12 @@ def configs(tree):
     out.append(Config(tree, [tree.root1, tree.root2], '/s', 'redirect'))
     out.append(Config(tree, [tree.root2, tree.root1], '/', 'rewrite'))
     out.append(Config(tree, [tree.root1, tree.root2], '/assets/v1/', 'redirect', two_apps=True))
+    # the search directory written in other, equivalent ways (a slice of the enumeration each)
+    out.append(Config(tree, [tree.root1], '/static/', 'redirect', spelling='trailing-slash'))
+    out.append(Config(tree, [tree.root1], '/files/', 'rewrite', spelling='dot-segment'))
+    out.append(Config(tree, [tree.root1, tree.root2], '/s', 'redirect', spelling='dotdot-detour'))
+    out.append(Config(tree, [tree.root2, tree.root1], '/d/', 'strict', spelling='double-slash'))
+    out.append(Config(tree, [tree.root1], '/rel/', 'redirect', spelling='relative'))
     return out
 
 
@@ -527,7 +567,7 @@ def run_shard(sh, spec):
         # every shard takes a slice of the enumerated space, for every configuration
         for ci, cfg in enumerate(cfgs):
             for j, segs in enumerate(seqs):
-                if (j + ci) % spec['of'] != spec['index']:
+                if (j + ci) % spec['of'] != spec['index'] or (cfg.light and (j // spec['of']) % 4):
                     continue
                 ex, kind = judge(sh, cfg, list(segs))
                 n_eval += 1
@@ -579,7 +619,9 @@ def replay(sh, case, spec):
     faults = None
     try:
         roots = [tree.root1] if case['roots'] == 1 else [tree.root1, tree.root2]
-        cfg = Config(tree, roots, case['prefix'], case['mode'], two_apps=case.get('two_apps', False))
+        if case.get('root_order'):
+            roots = [tree.root1 if k == 1 else tree.root2 for k in case['root_order']]
+        cfg = Config(tree, roots, case['prefix'], case['mode'], two_apps=case.get('two_apps', False), spelling=case.get('spelling', 'plain'))
         if case.get('fault'):
             faults = Faults()
             judge_faults(sh, cfg, case['segs'], faults, headers=case.get('headers'))
